@@ -1434,7 +1434,8 @@ func isJSONObject(b []byte) (isJSONObject, isEmpty bool) {
 		return false, false
 	}
 
-	return true, len(b) == 2
+	// An object is empty when only whitespace separates the braces ("{}", "{ }", "{\n}")
+	return true, len(bytes.TrimSpace(b[1:len(b)-1])) == 0
 }
 
 // injectJSONPropertyFromBytes injects val under the given key into b.
